@@ -1004,7 +1004,7 @@ class PX:
             cur = st.iters[it]['k']
             U = st.uid()
             self._remap[(it, cur)] = ('e', U, 1)
-            self._remap[(it, ('e', cur[1], cur[2] - 1))] = ('e', U, 0)
+            self._remap[(it, ('e', cur[1], cur[2] - 1))] = ('e', U, -1)      # the element consumed last (a `st = iter.next()` cell)
             newcur[it] = ('e', U, 1)
         self._newcur = newcur
         for l in sorted(set(modified) | set(live)):
@@ -1050,7 +1050,7 @@ class PX:
             return v
         if isinstance(a, tuple) and a and a[0] == 'atok':
             it = a[2]
-            el = self._newcur[it] if a[3] == 'cur' else ('e', self._newcur[it][1], 0)
+            el = self._newcur[it] if a[3] == 'cur' else ('e', self._newcur[it][1], -1)
             v = (a[1], it, el)
             if a[4] is not None:
                 carried.append((('has', it, el), a[4]))
